@@ -25,7 +25,8 @@ Abstractions (deliberate; see notes/C05.md):
 
 Every Go panic site on these paths is an explicit `panic` outcome: `BatchSign`/`BatchFinalize` without a
 pending batch (nil dereference), `previousOutputs[idx]` out of range in `TaprootMuSig2Sign`, and the
-handler's `batch.ServerNonces = …` / `sendRejectBatch(batch, …)` with a nil batch.
+handler's `batch.ServerNonces = …` / `sendRejectBatch(batch, …)` with a nil batch (reachable only in a
+tree whose Sign case lacks the `if batch == nil` guard; the guard is read from the regenerated program).
 -/
 namespace Pool.C05
 
@@ -465,6 +466,12 @@ def hsStmt (env : HEnv) (x : HS) (stmt : List String) : HS :=
   if x.done then x else
   match stmt with
   | ["call", "s.orderManager.PendingBatch", _] => x
+  | ["ifnil", "batch", calls, _] =>
+    -- `if batch == nil { …; return s.sendRejectUnparsedBatch(msg.Sign.BatchId, err) }` (present since the
+    -- fix "rpcserver: reject a sign message that arrives without a pending batch")
+    if x.st.pending.isSome then x
+    else if calls = "s.sendRejectUnparsedBatch" then { x with trace := .sendReject :: x.trace, done := true }
+    else { x with done := true }
   | ["call", "order.ParseRPCSign", _] =>
     { x with trace := .parseSign :: x.trace, err := !env.parseOk }
   | ["assign", "batch.ServerNonces", _] =>
